@@ -41,8 +41,20 @@ InstancesC02 ==
   \cup {[fam |-> "kclique", G |-> G, k |-> k] : G \in GraphsUpTo(4), k \in 0..3}
   \cup {[fam |-> "domset", G |-> G, d |-> d] : G \in GraphsUpTo(3), d \in 1..3}
 
+AllDags(n) == AllGraphs(n)      \* edges <<u,v>> with u < v, read as u -> v
+InstancesC03 ==
+       {[fam |-> "gop", G |-> G, total |-> t, smart |-> FALSE, plant |-> p, knuth |-> k] :
+            G \in GraphsUpTo(4), t \in B4, p \in B4, k \in {0, 2, 3}}
+  \cup {[fam |-> "gop", G |-> G, total |-> FALSE, smart |-> TRUE, plant |-> p, knuth |-> 0] :
+            G \in GraphsUpTo(4), p \in B4}
+  \cup {[fam |-> "peb", D |-> D] : D \in UNION {AllDags(n) : n \in 1..4}}
+  \cup {[fam |-> "stone", D |-> D, ns |-> ns] : D \in UNION {AllDags(n) : n \in 1..3}, ns \in 0..2}
+  \cup {[fam |-> "cpls", a |-> t[1], b |-> t[2], c |-> t[3]] :
+            t \in {<<1, 1, 1>>, <<1, 2, 2>>, <<2, 1, 2>>, <<2, 2, 1>>, <<2, 2, 2>>, <<3, 2, 1>>, <<1, 2, 4>>, <<3, 1, 4>>}}
+
 Instances == CASE Scope = "C01" -> InstancesC01
                [] Scope = "C02" -> InstancesC02
+               [] Scope = "C03" -> InstancesC03
 
 Init == inst \in Instances
 Next == UNCHANGED inst
@@ -94,6 +106,36 @@ CliqueCol_Sat_iff ==
                                 LAMBDA i, v : t[2][<<i, v>>], LAMBDA v, l : t[3][<<v, l>>])
       IN  (\E t \in Vals(G[1]) \X Vals(G[2]) \X Vals(G[3]) : ok(t))
              <=> (k <= n /\ k <= c /\ (n = 0 \/ c >= 1))
+-----------------------------------------------------------------------------
+(* C03: the documented axiom sets are contradictory (and the planted        *)
+(* ordering principle is satisfiable exactly on connected graphs)           *)
+
+\* keys of the named variables of a sequence of groups, and satisfaction of a
+\* set of named clauses by a valuation of those keys
+GroupKeys(G) == UNION {{<<g>> \o t : t \in G[g]} : g \in 1..Len(G)}
+SatNamed(val, Ax) == \A C \in Ax : \E L \in C : (L[1] = 1) = val[SubSeq(L, 2, Len(L))]
+Satisfiable(G, Ax) == \E val \in Vals(GroupKeys(G)) : SatNamed(val, Ax)
+
+GOP_Unsat_or_Planted ==
+    inst.fam = "gop" =>
+      LET G == inst.G
+          sat == Satisfiable(GOPGroups(G, inst.smart),
+                             GOPAxioms(G, inst.total, inst.smart, inst.plant, inst.knuth))
+      IN  IF G.n = 0 THEN sat       \* empty domain: no axioms at all (degenerate, see DESIGN)
+          ELSE sat <=> (inst.plant /\ Connected(G))
+
+Peb_Unsat ==
+    inst.fam = "peb" => ~Satisfiable(PebGroups(inst.D), PebAxioms(inst.D))
+
+Stone_Unsat ==
+    inst.fam = "stone" =>
+      LET B == CompleteBip(inst.D.n, inst.ns)
+      IN  ~Satisfiable(StoneGroups(inst.D, B), StoneAxioms(inst.D, B))
+
+CPLS_Unsat ==
+    inst.fam = "cpls" =>
+      ~Satisfiable(CPLSGroups(inst.a, inst.b, inst.c), CPLSAxioms(inst.a, inst.b, inst.c))
+
 -----------------------------------------------------------------------------
 (* C02 *)
 
